@@ -127,7 +127,8 @@ bool StepScript(InterpreterEnv& env)
             ++env.curr_op_seq;
             return true;
         case TaprootCommitmentEnv::State::Done:
-            ++env.curr_op_seq;
+            // the final commitment step covers two lines of the listing ("Tweak: ..." and "CheckTapTweak")
+            env.curr_op_seq += 2;
             env.execdata.m_tapleaf_hash = *env.tce->m_tapleaf_hash;
             env.execdata.m_tapleaf_hash_init = true;
             delete env.tce;
